@@ -7,6 +7,7 @@ restored afterwards; values come from the plan, never from a PRNG or a real cloc
 """
 import hashlib
 import os
+import sys
 import random as _pyrandom
 import time as _time
 
@@ -133,6 +134,58 @@ class SimEnv(object):
     def __exit__(self, *exc):
         self.uninstall()
         return False
+
+
+class Poison(object):
+    """numpy.empty / empty_like return buffers pre-filled with a different large value per allocation, but only
+    when the calling frame is aotools code (workspace arrays inside NumPy/SciPy are never touched). Legal:
+    `empty` promises nothing about the contents."""
+
+    def __init__(self):
+        import numpy
+        self.np = numpy
+        self.real_empty = numpy.empty
+        self.real_empty_like = numpy.empty_like
+        self.count = 0
+        self.on = False
+        self.hits = 0
+
+    def _from_aotools(self):
+        f = sys._getframe(2)
+        return f.f_code.co_filename.startswith(_aotools_dir())
+
+    def _fill(self, a):
+        self.count += 1
+        self.hits += 1
+        try:
+            if a.dtype.kind in "fc":
+                a[...] = 1.0e6 * (self.count + 1) + 0.5
+            elif a.dtype.kind in "iu":
+                a[...] = 1000 + self.count
+        except Exception:
+            pass
+        return a
+
+    def empty(self, *args, **kw):
+        a = self.real_empty(*args, **kw)
+        if self.on and self._from_aotools():
+            self._fill(a)
+        return a
+
+    def empty_like(self, *args, **kw):
+        a = self.real_empty_like(*args, **kw)
+        if self.on and self._from_aotools():
+            self._fill(a)
+        return a
+
+    def install(self):
+        self.np.empty = self.empty
+        self.np.empty_like = self.empty_like
+
+    def uninstall(self):
+        self.np.empty = self.real_empty
+        self.np.empty_like = self.real_empty_like
+
 
 
 # ---- ambient (global) RNG state -----------------------------------------------------------------------
